@@ -30,7 +30,7 @@ pub enum FfiCall {
     WriteSingleCoil(RequestParam, Indexed<bool>), WriteSingleRegister(RequestParam, Indexed<u16>),
     WriteMultipleCoils(RequestParam, AddressRange, Seq<bool>), WriteMultipleRegisters(RequestParam, AddressRange, Seq<u16>),
 }
-pub struct FfiChannel { pub ghost calls: Seq<FfiCall> }
+pub struct FfiChannel { pub ghost calls: Seq<FfiCall>, pub ghost cfg: ChannelCfg }
 impl FfiChannel {
     #[verifier::external_body]
     pub fn enable(&mut self) -> (r: Result<(), FfiChannelError>)
@@ -85,3 +85,36 @@ pub trait RetryStrategy {
 pub fn doubling_retry_strategy(min: Duration, max: Duration) -> (r: Box<dyn RetryStrategy>)
     ensures r.cfg_min() == min, r.cfg_max() == max { unimplemented!() }
 //@trusted rodbus::doubling_retry_strategy (FFI unit): assumed contract - the strategy is configured with the given minimum and maximum (the strategy itself is decided for C14 on the real code)
+
+// ---- channel constructors of the rodbus crate as the FFI crate sees them (assumed contracts: the channel is configured with exactly
+// the arguments; the rodbus side - options, task construction - is under contract in the client unit) ----
+pub struct HostAddr { pub x: u8 }
+pub struct TlsClientConfig { pub x: u8 }
+pub ghost struct ChannelCfg {
+    pub host: Option<HostAddr>, pub path: Option<Seq<char>>, pub serial: Option<crate::rodbus::SerialSettings>, pub tls: Option<TlsClientConfig>,
+    pub max_queued: usize, pub retry_min: Duration, pub retry_max: Duration, pub decode: DecodeLevel, pub has_listener: bool,
+}
+pub struct Channel { pub ghost cfg: ChannelCfg }
+impl FfiChannel {
+    #[verifier::external_body]
+    pub fn new(channel: Channel) -> (r: Self) ensures r.cfg == channel.cfg, r.calls.len() == 0 { unimplemented!() }
+}
+#[verifier::external_body]
+pub fn spawn_tcp_client_task(host: HostAddr, max_queued_requests: usize, retry: Box<dyn RetryStrategy>, decode: DecodeLevel,
+                             listener: Option<Box<dyn Listener<ClientState>>>) -> (r: Channel)
+    ensures r.cfg == (ChannelCfg { host: Some(host), path: None, serial: None, tls: None, max_queued: max_queued_requests,
+        retry_min: retry.cfg_min(), retry_max: retry.cfg_max(), decode, has_listener: listener is Some }),
+{ unimplemented!() }
+#[verifier::external_body]
+pub fn spawn_tls_client_task(host: HostAddr, max_queued_requests: usize, retry: Box<dyn RetryStrategy>, tls_config: TlsClientConfig, decode: DecodeLevel,
+                             listener: Option<Box<dyn Listener<ClientState>>>) -> (r: Channel)
+    ensures r.cfg == (ChannelCfg { host: Some(host), path: None, serial: None, tls: Some(tls_config), max_queued: max_queued_requests,
+        retry_min: retry.cfg_min(), retry_max: retry.cfg_max(), decode, has_listener: listener is Some }),
+{ unimplemented!() }
+#[verifier::external_body]
+pub fn spawn_rtu_client_task(path: &String, serial_settings: crate::rodbus::SerialSettings, max_queued_requests: usize, retry: Box<dyn RetryStrategy>,
+                             decode: DecodeLevel, listener: Option<Box<dyn Listener<PortState>>>) -> (r: Channel)
+    ensures r.cfg == (ChannelCfg { host: None, path: Some(path@), serial: Some(serial_settings), tls: None, max_queued: max_queued_requests,
+        retry_min: retry.cfg_min(), retry_max: retry.cfg_max(), decode, has_listener: listener is Some }),
+{ unimplemented!() }
+//@trusted rodbus::client::spawn_{tcp,tls,rtu}_client_task, FfiChannel::new (FFI unit): assumed contracts - the channel is configured with exactly the arguments given
